@@ -29,6 +29,8 @@ type StructAnn struct {
 	locks    map[string]int    // lock field -> level
 	conds    map[string]string // cond field -> lock path
 	invs     []specLine
+	elemInv  map[string][]specLine // channel field -> invariant over `elem`
+	openChan map[string]bool       // channel fields that are never closed
 	line     int
 	file     string
 }
@@ -256,7 +258,7 @@ func (a *Annotations) parseFile(path, pkg string) error {
 		sl := specLine{text: rest, file: relfile, line: ln}
 		switch word {
 		case "struct":
-			cs = &StructAnn{pkg: pkg, name: rest, key: pkg + "." + rest, fields: map[string]*fieldAnn{}, nullable: map[string]bool{}, locks: map[string]int{}, conds: map[string]string{}, file: relfile, line: ln}
+			cs = &StructAnn{pkg: pkg, name: rest, key: pkg + "." + rest, fields: map[string]*fieldAnn{}, nullable: map[string]bool{}, locks: map[string]int{}, conds: map[string]string{}, elemInv: map[string][]specLine{}, openChan: map[string]bool{}, file: relfile, line: ln}
 			a.structs[cs.key] = cs
 			cf = nil
 		case "func":
@@ -344,6 +346,21 @@ func (a *Annotations) structClause(cs *StructAnn, word, rest string, sl specLine
 		}
 	case "invariant":
 		cs.invs = append(cs.invs, sl)
+	case "never_closed":
+		for _, f := range strings.Fields(rest) {
+			cs.openChan[f] = true
+		}
+	case "elem_invariant":
+		// elem_invariant <chanfield>[,<chanfield>...]: <expr over elem>
+		i := strings.Index(rest, ":")
+		if i < 0 {
+			return fmt.Errorf("elem_invariant <fields>: <expr>")
+		}
+		sl.text = strings.TrimSpace(rest[i+1:])
+		for _, f := range strings.Split(rest[:i], ",") {
+			f = strings.TrimSpace(f)
+			cs.elemInv[f] = append(cs.elemInv[f], sl)
+		}
 	default:
 		return fmt.Errorf("unknown struct clause %q", word)
 	}
